@@ -60,7 +60,7 @@ class AwesomeyamlLoader(yaml.Loader):
 
         aynode = self._convert(value, node)
 
-        if not deep and value is not aynode:
+        if not (deep or self.deep_construct) and value is not aynode:
             if isinstance(node, yaml.SequenceNode):
                 self.state_generators.append(self._make_generator(value, aynode.extend))
             elif isinstance(node, yaml.MappingNode):
